@@ -70,6 +70,8 @@ struct RunCtx<'a> {
     cfg: &'a Cfg,
     tokmap: HashMap<String, Vec<Tok>>,
     notes: Vec<String>,
+    /// label texts of this run in order of first appearance (the identity of a symbol, see Algo!Val)
+    labels: HashMap<String, usize>,
 }
 
 impl<'a> RunCtx<'a> {
@@ -118,6 +120,12 @@ impl<'a> RunCtx<'a> {
             }
         }
         let nest: Vec<Value> = g.repetitions.iter().map(|x| self.sym(x, table)).collect();
+        if self.cfg.icase || self.cfg.any_class() {
+            // the code tells labels apart by their text; two labels may denote the same sets
+            let n = self.labels.len() + 1;
+            let k = *self.labels.entry(format!("{:?}", g.chars)).or_insert(n);
+            return json!({"u": u, "lo": g.min, "hi": g.max, "nest": nest, "k": k});
+        }
         json!({"u": u, "lo": g.min, "hi": g.max, "nest": nest})
     }
 
@@ -315,7 +323,7 @@ fn parse_cached(p: &str) -> std::rc::Rc<Parsed> {
             Regex::new(p).map_err(|e| e.to_string()),
             Regex::new(&format!("^(?:{})$", p)).map_err(|e| e.to_string()),
         ));
-        if c.len() > 20000 {
+        if c.len() > 256 {
             c.clear();
         }
         if p.len() < 64 {
@@ -431,7 +439,7 @@ pub fn emit_group(spec: &GroupSpec) -> GroupOut {
                            "unstable": class_unstable,
                            "sched": run.class_sizes.len()}));
 
-        let mut ctx = RunCtx { cfg, tokmap: HashMap::new(), notes: vec![] };
+        let mut ctx = RunCtx { cfg, tokmap: HashMap::new(), notes: vec![], labels: HashMap::new() };
         let mut cl0: Option<&Vec<Vec<VGrapheme>>> = None;
         let mut n_widen = 0;
         for ev in &run.events {
